@@ -206,7 +206,7 @@ def run(ctx: Ctx) -> None:
     opts = lambda: L.sym_options(end_comment=False, indent=2, spacer=" ", newlinechar="\n")
     all_outs = L.format_lines(with_comments, opts, level=0, fork=True)
     base = L.format_lines(without_comments, opts, level=0, fork=False)
-    locp = repo.loc("pprint", repo.func("pprint.PrettyPrinter._format"))
+    locp = repo.loc("pprint", repo.func(models.fmt_qual(repo)))
     if len(all_outs) > 1:
         ctx.finding("K4", "printing depends on properties of the comment text", locp, f"the printer takes {len(all_outs)} different paths depending on the comment text: {[a_ for a_, _, _ in all_outs][:3]}")
     outs = all_outs[:1]
